@@ -66,6 +66,46 @@ Theorem c10_server_release_is_policy_output : forall rmatch ectab x be r,
 Proof. exact server_release_is_policy_output. Qed.
 Print Assumptions c10_server_release_is_policy_output.
 
+(* THE LIFE OF ONE Policy OBJECT (as held by a running Server): for every policy configuration and every
+   sequence of calls on the object - users, requesters, arguments and the content of the metadata
+   store (what it says about the requester: required/optional attributes, entity categories,
+   registration authority) changing from call to call - every call satisfies the whole property
+   against the requester AS DESCRIBED AT THE TIME OF THAT CALL *)
+Theorem c10_life_guarded : forall rmatch ectab p l,
+  guard_life ectab p l = true -> spec_life rmatch ectab p l (run_life rmatch ectab p l).
+Proof. exact life_spec. Qed.
+Print Assumptions c10_life_guarded.
+
+(* what a call releases does not depend on the calls made before or after it on the same object *)
+Theorem c10_life_history_independent : forall rmatch ectab p pre s post,
+  nth_error (run_life rmatch ectab p (pre ++ s :: post)) (length pre)
+  = Some (run rmatch ectab (step_input p s)).
+Proof. exact life_history_independent. Qed.
+Print Assumptions c10_life_history_independent.
+
+(* ... in particular a release made late in a life is a subset of that call's identity and permitted
+   by that call's requester description *)
+Theorem c10_life_release_allowed : forall rmatch ectab p pre s post o r,
+  guard ectab (step_input p s) = true ->
+  nth_error (run_life rmatch ectab p (pre ++ s :: post)) (length pre) = Some o ->
+  o_out o = Ok r ->
+  subset (st_ident s) r /\ allowed rmatch ectab (flat (step_input p s)) r.
+Proof. exact life_release_allowed. Qed.
+Print Assumptions c10_life_release_allowed.
+
+(* the boolean life spec evaluated by the correspondence is the life spec *)
+Theorem c10_life_spec_reflect : forall rmatch ectab p l os,
+  spec_life_b rmatch ectab p l os = true <-> spec_life rmatch ectab p l os.
+Proof. exact spec_life_b_iff. Qed.
+Print Assumptions c10_life_spec_reflect.
+
+(* a life whose later calls answer what the first call was entitled to (restrictions remembered on
+   the object) fails the property *)
+Theorem c10_stale_life_refuted : exists rmatch ectab p l,
+  guard_life ectab p l = true /\ ~ spec_life rmatch ectab p l (stale_life rmatch ectab p l).
+Proof. exact stale_life_refuted. Qed.
+Print Assumptions c10_stale_life_refuted.
+
 (* finding C10-F1, fixed by a4e3dbdd: the code BEFORE the repair (run_v0: literal best_effort=True,
    MissingValue leaves the unfiltered identity in the assertion) fails the property *)
 Theorem c10_server_release_v0_refuted : exists rmatch ectab x, ~ spec rmatch ectab (flat x) (run_v0 rmatch ectab x).
